@@ -46,7 +46,7 @@ ASSUMPTIONS = ["client contract of block.h: a block object that is waited for / 
 
 U64 = 1 << 64
 OFF = {"flags": 16, "performed": 20, "queue": 56, "thread": 64}
-OP_DIRECT, OP_SYNC, OP_ASYNC, OP_CANCEL, OP_TESTCANCEL, OP_WAIT, OP_NOTIFY, OP_PERFORM_PUBLIC = 1, 2, 3, 5, 6, 7, 8, 9
+OP_DIRECT, OP_SYNC, OP_ASYNC, OP_CANCEL, OP_TESTCANCEL, OP_WAIT, OP_NOTIFY, OP_PERFORM_PUBLIC, OP_RELEASE = 1, 2, 3, 5, 6, 7, 8, 9, 10
 FOREVER = U64 - 1
 
 
@@ -86,6 +86,7 @@ def parse_rounds(other):
             for a in ("kind", "subm", "flags", "hold", "inv", "body", "performed", "cancels", "wz", "wnz", "wearly", "tczero",
                       "expect_done", "stuck", "finalflags", "finalqueue", "nnotif"):
                 d[a] = int(d[a])
+            d["released"] = int(d.get("released", 0))
             rounds[d["k"]] = d
         elif l.startswith("L "):
             layout = dict((a, int(b)) for a, b in (x.split("=") for x in l.split()[1:]))
@@ -127,6 +128,10 @@ def analyse(text, label):
         body_end = [e for e in allev if e.kind == 103]
         incs = [e for e in allev if e.kind == 6 and e.obj % 2 == 0 and e.off == OFF["performed"]]
         first_inc = min((e.seq for e in incs), default=None)
+        # the moment from which observers may be answered: the first completion, or — for an object that was never executed —
+        # the release of its last reference (the destructor of the private data leaves the group: src/block.cpp)
+        rel = [e.seq for e in allev if e.kind == 100 and e.a == OP_RELEASE]
+        first_done = first_inc if first_inc is not None else (min(rel) if rel else None)
         cancel_ret = []      # stamps at which a cancel had returned
         for thr, evs in thr_ev.items():
             op = None
@@ -213,9 +218,9 @@ def analyse(text, label):
         for i, ss in notif_start.items():
             if len(ss) > 1:
                 fail(k, "notification %d was submitted %d times" % (i, len(ss)), "notify-twice")
-            if first_inc is None or min(ss) < first_inc:
-                fail(k, "notification %d started (stamp %d) before the first completion (%s)" % (i, min(ss), first_inc),
-                     "notify-early")
+            if first_done is None or min(ss) < first_done:
+                fail(k, "notification %d started (stamp %d) before the first completion / the release of a never executed "
+                     "object (%s)" % (i, min(ss), first_done), "notify-early")
         # --- round level
         if rd.get("stuck"):
             fail(k, "round did not make progress (stuck mask %d): completion for waiters / notifiers missing" % rd["stuck"], "stuck")
@@ -224,7 +229,7 @@ def analyse(text, label):
         if rd["tczero"]:
             fail(k, "dispatch_block_testcancel returned 0 after a dispatch_block_cancel had returned", "testcancel-lost2")
         nb = len(body_begin)
-        if rd["kind"] in (0, 1, 3, 4):
+        if rd["kind"] in (0, 1, 3, 4, 5):
             if rd["performed"] != rd["inv"] and rd["expect_done"]:
                 fail(k, "%d invocations but dbpd_performed = %d" % (rd["inv"], rd["performed"]), "performed-count")
             if nb > rd["inv"]:
@@ -449,7 +454,8 @@ def coq_replay(name, jobs, window=24, workers=4, chunk_events=6000, timeout=900)
 
 
 REPLAY_FIELDS = ["executed", "left", "latent_steps", "stuck_thread", "all_idle", "inv_b", "flags", "performed", "queue_set", "gcount",
-                 "bodies", "fin", "ninv", "leaves", "nreg", "notifications_submitted", "qref", "cancelled", "stuck_pc", "stuck_left"]
+                 "bodies", "fin", "ninv", "leaves", "nreg", "notifications_submitted", "qref", "cancelled", "stuck_pc", "stuck_left",
+                 "disposed", "dleave", "pendsub"]
 
 
 def judge_replay(rd, threads, r):
@@ -461,7 +467,8 @@ def judge_replay(rd, threads, r):
             "ninv": sum(1 for e in allev if e.kind == 6 and e.obj % 2 == 0 and e.off == OFF["performed"]),
             "leaves": sum(1 for e in allev if e.kind == 6 and e.obj % 2 == 1 and e.off == 0),
             "nreg": 0 if rd["kind"] == 2 else rd["nnotif"], "notifications_submitted": sum(rd.get("runs", [])),
-            "cancelled": 1 if (rd["finalflags"] & 1) else 0, "qref": 2 * rd["finalqueue"]}
+            "cancelled": 1 if (rd["finalflags"] & 1) else 0, "qref": 2 * rd["finalqueue"], "disposed": rd["released"],
+            "dleave": 1 if (rd["released"] and rd["performed"] == 0) else 0, "pendsub": 0}
     bad = {k: (m[k], v) for k, v in want.items() if m[k] != v}
     if not bad:
         return None
@@ -483,18 +490,21 @@ def judge_replay(rd, threads, r):
 TAGS = {0: "PIdle", 1: "PCrash", 2: "PRet", 3: "PSubmit", 4: "PSubmitCas", 5: "PSubmitRel", 6: "PInvRead", 7: "PSetThread",
         8: "PBodyNext", 9: "PInBody", 10: "PInc", 11: "PLeave", 12: "PPost", 13: "PPost(in leave)", 14: "PRel", 15: "PCancel",
         16: "PTestRead", 17: "PWaitOr", 18: "PWaitXchg", 19: "PWaitWake", 20: "PWaitThread", 21: "PWaitPerf", 22: "PWaitG",
-        23: "PWaitOut0", 24: "PWaitOut1", 25: "PNotifyPerf", 26: "PNotifyG"}
+        23: "PWaitOut0", 24: "PWaitOut1", 25: "PNotifyPerf", 26: "PNotifyG", 27: "PDtorPerf", 28: "PDtorLeave", 29: "PDtorPost",
+        30: "PDtorRel"}
 MODEL_TRANSITIONS = {
     (0, 6), (0, 3), (0, 15), (0, 16), (0, 17), (0, 25), (0, 10), (0, 12), (0, 8), (2, 0), (3, 4), (4, 6), (4, 2), (4, 5),
     (5, 6), (5, 2), (6, 10), (6, 12), (6, 7), (6, 8), (7, 8), (8, 9), (9, 10), (9, 12), (10, 11), (10, 12), (11, 13),
     (12, 0), (12, 2), (12, 14), (13, 13), (13, 0), (13, 2), (13, 14), (14, 0), (14, 2), (15, 2), (16, 2), (17, 18),
     (18, 20), (18, 19), (19, 20), (20, 21), (21, 22), (22, 22), (22, 23), (22, 24), (23, 2), (24, 2), (25, 26), (26, 26),
-    (26, 2)}
+    (26, 2), (0, 27), (27, 28), (27, 29), (28, 29), (29, 29), (29, 2), (29, 30), (30, 2)}
 # an async invocation of a DBF_PERFORM record that reads DBF_CANCELED: the model allows it (most general client), the
 # library never builds such an object (dispatch_block_perform's record lives on its stack and is invoked directly)
-UNREACHABLE_TRANSITIONS = {(0, 12)}
+# ... and a destructor that still finds a target queue in dbpd_queue: every submission is invoked (which empties the slot) before
+# the queue drops its reference on the block object
+UNREACHABLE_TRANSITIONS = {(0, 12), (29, 30), (30, 2)}
 # transitions into DISPATCH_CLIENT_CRASH: exercised by the one-process-per-scenario runs of crash_scenarios()
-CRASH_TRANSITIONS = {(0, 1), (6, 1), (11, 1), (17, 1), (21, 1), (25, 1)}
+CRASH_TRANSITIONS = {(0, 1), (6, 1), (11, 1), (17, 1), (21, 1), (25, 1), (28, 1)}
 
 
 CRASH_SCENARIOS = {1: "a second dispatch_block_wait while the first one waits", 2: "direct call after a successful wait",
@@ -672,12 +682,13 @@ def correspond(ctx):
         reach_tr = MODEL_TRANSITIONS - UNREACHABLE_TRANSITIONS
         total["model_transitions_covered"] = "%d/%d" % (len(seen & reach_tr), len(reach_tr))
         total["model_transitions_uncovered"] = ["%s->%s" % (TAGS[a], TAGS[b]) for (a, b) in sorted(reach_tr - seen)]
-        total["model_transitions_unreachable_through_the_api"] = ["%s->%s (async invocation of a cancelled DBF_PERFORM record)"
-                                                                  % (TAGS[a], TAGS[b]) for (a, b) in sorted(UNREACHABLE_TRANSITIONS)]
+        total["model_transitions_unreachable_through_the_api"] = [
+            "%s->%s (%s)" % (TAGS[a], TAGS[b], "async invocation of a cancelled DBF_PERFORM record" if (a, b) == (0, 12) else
+                             "destructor finding a queue still in dbpd_queue") for (a, b) in sorted(UNREACHABLE_TRANSITIONS)]
         total["model_transitions_unexpected"] = ["%s->%s" % (TAGS.get(a, a), TAGS.get(b, b))
                                                  for (a, b) in sorted(seen - MODEL_TRANSITIONS - CRASH_TRANSITIONS)]
         total["crash_transitions_covered"] = "%d/%d" % (len(seen & CRASH_TRANSITIONS), len(CRASH_TRANSITIONS))
-        total["crash_transitions_uncovered"] = ["%s->%s%s" % (TAGS[a], TAGS[b], " (needs 2^32 invocations)" if (a, b) == (11, 1) else "")
+        total["crash_transitions_uncovered"] = ["%s->%s%s" % (TAGS[a], TAGS[b], " (needs 2^32 invocations)" if (a, b) in ((11, 1), (28, 1)) else "")
                                                 for (a, b) in sorted(CRASH_TRANSITIONS - seen)]
     cov = branch_coverage(alltr)
     total["api_branches_covered"] = "%d/%d" % (len(cov["covered"]), len(cov["all"]))
